@@ -181,7 +181,7 @@ def run_model_and_steps(chk, prop, tier, pkey=None):
         return
     if pk in ("C04", "C06"):
         # scans over several borders collecting (version, node) pairs vs splits, interior insert, collapse, removes (YkConc4 programs g-j)
-        for cfg in ((["g", "i", "o"] if pk == "C04" else ["g", "h"]) if tier == "quick" else ["g", "h", "i", "j", "o"]):
+        for cfg in ((["g", "i", "o", "q"] if pk == "C04" else ["g", "h"]) if tier == "quick" else ["g", "h", "i", "j", "o", "q", "r", "s"]):
             res = tlc("MC_Conc4", "MC_Conc4_%s.cfg" % cfg, workers=12, timeout=1500)
             chk.add_tlc(res, "YkConc4 config %s: full scan with node-version collection over 2-3 borders vs split / collapse / insert / remove (ScanOK, NvOK, LinOK, Quiescent, Termination under WF)" % cfg)
             if not res.ok:
@@ -327,7 +327,7 @@ def run_steps3(chk, prop, tier, pk):
 
 STEP4 = [("put:21,get:32,get:21", 2), ("put:21,rem:2,get:32", 2), ("put:5,rem:18,get:16", 1), ("put:34,rem:2,get:34", 2), ("put:21,rem:2,get:18", 2), ("put:1,get:2,get:17", 1)]
 STEP4_ISCAN = [("put:21,iscan:0,rem:2", 2), ("put:5,iscan:0,rem:18", 1), ("put:34,iscan:0,get:34", 2), ("put:21,iscan:0,iscan:0", 2)]
-STEP4_SCAN = [("put:21,scan:0,rem:2", 2), ("put:5,scan:0,rem:18", 1), ("put:34,scan:0,get:34", 2), ("put:21,scan:0,scan:0", 2)]
+STEP4_SCAN = [("put:21,scan:0,rem:2", 2), ("put:34,rscan:0,rem:2", 2), ("put:5,scan:0,rem:18", 1), ("put:34,scan:0,get:34", 2), ("put:21,scan:0,scan:0", 2), ("put:21,rscan:0,rem:33", 2)]
 
 
 def run_steps4(chk, prop, tier, pk, progs=None):
@@ -365,7 +365,7 @@ def run_steps4(chk, prop, tier, pk, progs=None):
         open(tr, "w").write(out)
         cfg = write_cfg(os.path.join(BUILD, "cfg", "tc4_%s_%d.cfg" % (pk, pi)), constants={"F": 15, "Keys": keys, "Threads": "{0, 1, 2}", "Prog": "<- ProgT",
                         "Init1": "{2}", "Init2": "{18}", "UNLOCK_BEFORE_PARENT": "FALSE", "NO_INS_ON_INSERT": "FALSE", "NO_INS_ON_DELETE": "FALSE",
-                        "SCAN_NO_FINAL": "FALSE", "SCAN_NO_ENTRY_CHECK": "FALSE", "SCAN_DUP": "FALSE", "ISCAN_NO_REWIND": "FALSE"},
+                        "SCAN_NO_FINAL": "FALSE", "SCAN_NO_ENTRY_CHECK": "FALSE", "SCAN_DUP": "FALSE", "ISCAN_NO_REWIND": "FALSE", "SCAN_FRESH_VERSION": "FALSE"},
                         invariants=["LinOK", "ScanOK", "NvOK", "RootOpsOK", "Quiescent"], constraint="Record")
         res = tlc("TraceConc4", cfg, env={"TRACE": tr}, workers=1, timeout=600, deque=True)
         chk.add_tlc(res, "step-level conformance of split under a parent / interior insert, shift-delete / collapse vs new root, programs %s, border %d full (%d runs, %d events)" % (prog, full, 2 * nruns, len(lines)))
